@@ -224,7 +224,10 @@ class Impl:
                         if func(**{v: (v in on) for v in vl}):
                             acc.append(mask(on))
                 cons.append([mask(vl), sorted(acc)])
-            return [doms, cons]
+            # as a set of truth tables, sorted (see Model_C10.ckey): the lru_cache of _compiled_constraints
+            # is keyed by DepSet equality, which ignores order and multiplicity of the top-level items
+            keyed = {(vm | (sum(1 << m for m in acc) << 8)): [vm, acc] for vm, acc in cons}
+            return [doms, [keyed[k] for k in sorted(keyed)]]
         return impl_call(run, kinds=KINDS)
 
 
